@@ -25,7 +25,7 @@ ASSUMPTIONS = [
 
 
 def bounds(tier):
-    return {"K_operand_items": 2 if tier == "quick" else 3, "L_listing_len": 3 if tier == "quick" else 4,
+    return {"K_operand_items": 2 if tier == "quick" else 3, "L_listing_len": 3 if tier == "quick" else "4 (3 for the 3-operand rules)",
             "configs": 4}
 
 
@@ -59,51 +59,56 @@ def all_rules(tier):
     return rules
 
 
+def rule_cases(tier):
+    """(family, pattern, listing-set name).  thorough: 3-operand rules on listings <= 3, everything else on listings <= 4."""
+    out = []
+    crlf = [("CRLF", pat, "crlf") for fam, pat in all_rules("quick") if fam == "F2"]
+    if tier == "quick":
+        for fam, pat in all_rules("quick"):
+            out.append((fam, pat, "hex" if fam == "F4" else "L3"))
+        return out + crlf
+    out += crlf
+    for r in f1_rules(3):
+        n_ops = 0 if isinstance(r[0], str) else len(next(iter(r[0].values())))
+        out.append(("F1", r, "L3" if n_ops == 3 else "L4"))
+    for fam, pat in all_rules("quick"):
+        if fam != "F1":
+            out.append((fam, pat, "hex" if fam == "F4" else "L4"))
+    return out
+
+
 def shards(tier):
-    rules = all_rules(tier)
-    n = 64 if tier == "quick" else 256
+    n = 64 if tier == "quick" else 512
     return [{"lo": i, "n": n} for i in range(n)]
 
 
-_LS = {}
+class CRLFListingSet(e1.ListingSet):
+    """the same listings with DOS line endings"""
+
+    def __init__(self, h, alphabet, maxlen):
+        from mc.common import fmt_listing
+        self.alphabet = alphabet
+        self.items = []
+        for idx in e1.listings_over(alphabet, maxlen):
+            att = [(e1.ADDRS[p], alphabet[i][0], alphabet[i][1]) for p, i in enumerate(idx)]
+            text = fmt_listing(att).replace("\n", "\r\n")
+            path = h.write(f"crlf_{len(self.items)}.s", text.encode())
+            self.items.append((idx, path, [e1.norm_inst(*x) for x in att], att))
+
+
+def build_lsets(h, tier):
+    ls = {"L3": e1.ListingSet(h, e1.ALPHA_MAIN, 3), "hex": e1.ListingSet(h, HEXH_ALPHA, 2),
+          "crlf": CRLFListingSet(h, e1.ALPHA_MAIN, 2)}
+    if tier == "thorough":
+        ls["L4"] = e1.ListingSet(h, e1.ALPHA_MAIN, 4)
+    return ls
 
 
 def run_shard(shard, tier, h, res, known):
-    rules = all_rules(tier)
-    L = 3 if tier == "quick" else 4
-    key = (h.root, tier)
-    if key not in _LS:
-        _LS.clear()
-        _LS[key] = (e1.ListingSet(h, e1.ALPHA_MAIN, L), e1.ListingSet(h, HEXH_ALPHA, 2))
-    ls_main, ls_hex = _LS[key]
-    for ri in range(shard["lo"], len(rules), shard["n"]):
-        fam, pattern = rules[ri]
-        ls = ls_hex if fam == "F4" else ls_main
-        for cfg in e1.CONFIGS:
-            doc = make_rule_doc(pattern, flags_config(*cfg))
-            try:
-                mop = h.mop(doc)
-            except Exception as e:  # a valid rule must compile
-                res.evaluations += 1
-                res.fail({"clause": "compile", "rule": doc, "listing": [], "expected": "compiles",
-                          "observed": repr(e), "size": 0}, known)
-                continue
-            ref = rm.Ref(*cfg)
-            first = pattern[0]
-            for idx, path, norm, att in ls:
-                res.evaluations += 1
-                problems, rfound = e1.analyse(h, mop, ref, pattern, path, norm)
-                if rfound or any(True for i in range(len(norm)) for _ in ref.once(first, norm, i, {})):
-                    res.nontrivial += 1
-                res.count("found" if rfound else "notfound")
-                for clause, exp, obs in problems:
-                    c = e1.describe_case(pattern, cfg, att)
-                    c.update(clause=clause, expected=exp, observed=obs, size=len(att) + len(str(pattern)))
-                    res.fail(c, known)
-        if len(res.samples) < 2:
-            res.samples.append({"rule": make_rule_doc(pattern, flags_config(*e1.CONFIGS[ri % 4])),
-                                "listing": ls.items[min(len(ls) - 1, 77 + ri)][3] if len(ls) > 1 else [],
-                                "family": fam})
+    cases = rule_cases(tier)
+    lsets = e1.get_lsets(h, tier, build_lsets)
+    rules = [e1.RuleCase(fam, pat, lsn, cfgs=e1.CONFIGS, want=("verdict",)) for fam, pat, lsn in cases]
+    e1.run_rules(h, res, known, rules, lsets, shard, prop=ID)
 
 
 # ------------------------------------------------------------------ positive controls
@@ -142,18 +147,7 @@ def controls(h):
 
 
 def replay(case, h):
-    from mc.common import fmt_listing
-    doc = case["rule"]
-    cfgd = doc.get("config", {})
-    cfg = (bool(cfgd.get("mnemonics-full-match")), bool(cfgd.get("operands-full-match")))
-    att = [(a, m, list(o)) for a, m, o in case["listing"]]
-    norm = [e1.norm_inst(*x) for x in att]
-    try:
-        mop = h.mop(doc)
-    except Exception as e:
-        return True, f"compile raised {e!r}"
-    problems, rfound = e1.analyse(h, mop, rm.Ref(*cfg), doc["pattern"], h.listing_file(fmt_listing(att)), norm)
-    return bool(problems), f"reference found={rfound}; problems={problems}"
+    return e1.replay_case(case, h)
 
 ENGINE = "E1"
 TECHNIQUE = "bounded exhaustive enumeration of rules x listings x flag settings on the real code vs a reference matcher"
